@@ -173,6 +173,8 @@ func boundaryGen(r *rand.Rand, n int, tier string, emit func(Case)) {
 			g = l.concavePolygon().AsGeometry()
 		case 1:
 			g = l.starLines().AsGeometry()
+		case 3:
+			g = l.nestedEmptyHigher()
 		default:
 			g = l.any(4)
 		}
